@@ -336,7 +336,8 @@ PRODUCERS = [
 PROVENANCE_OBS = ["X instanceof Array", "X instanceof Object", "X instanceof Error", "X instanceof RegExp", "X instanceof Function", "X instanceof Uint8Array",
                   "X instanceof ArrayBuffer", "X instanceof TypeError", "Array.isArray(X)", "Object.getPrototypeOf(X) === Object.getPrototypeOf([])",
                   "Object.getPrototypeOf(X) === Object.getPrototypeOf({})",        # (regexes, typed arrays, functions have no prototype OBJECT here: documented)
-                  "(function () { Object.getPrototypeOf({}).viaProto = 6; return X.viaProto })()", "typeof X"]
+                  "(function () { Object.getPrototypeOf({}).viaProto = 6; return X.viaProto })()", "typeof X",
+                  "X === null || X === undefined || typeof X !== 'object' && typeof X !== 'function' ? 'primitive' : Object(X) === X"]
 
 
 def provenance_cases():
